@@ -318,7 +318,7 @@ class Unit:
 
     def __init__(self, name, target, params, requires=None, ensures=(), raises=None, loops=None, env=None,
                  uses=(), self_param=None, replay=None, prop=None, max_unroll=0, setup=None, kwargs_call=None,
-                 check_effects=None, note='', timeout_s=None, ghost=None, hooks=None, native_setup=None, thorough_only=False):
+                 check_effects=None, note='', timeout_s=None, ghost=None, hooks=None, native_setup=None, thorough_only=False, setup_params=None):
         self.name = name
         self.target = target            # 'module:Qual.name' (nested functions allowed)
         self.params = params            # ordered dict name -> T
@@ -339,3 +339,4 @@ class Unit:
         self.hooks = hooks or {}
         self.native_setup = native_setup
         self.thorough_only = thorough_only
+        self.setup_params = setup_params
